@@ -742,6 +742,10 @@ def oracle(ctx, hints, effort):
     # physical root of the mixing equation and not another one
     from smrt.permittivity import snow_mixing_formula as smf
     for nm in THREE:
+        # every wetness of the ladder at least once per formula (dense and light snow alternately), then random draws
+        for j_, lw_ in enumerate([0.05, 0.2, 0.35, 0.5, 0.65, 0.8, 0.95]):
+            evals += 1
+            keep(check_three(nm, float(FREQS[(j_ * 3) % len(FREQS)]), [150.0, 450.0, 750.0][j_ % 3], lw_))
         for _ in range(max(6, n // 2)):
             evals += 1
             keep(check_three(nm, float(rng.choice(FREQS)), float(rng.uniform(60, 910)), float(rng.choice([0.05, 0.2, 0.35, 0.5, 0.65, 0.8, 0.95]))))
